@@ -2,6 +2,6 @@
 SPECIFICATION Spec
 CONSTANTS
   Devs = {}
-  Families = {"A", "B", "C", "D", "E", "F", "G", "H"}
+  Families = {"A", "B", "C", "D", "E", "F", "G", "H", "I"}
   Gen = FALSE
 INVARIANT RuleIsSafe
